@@ -232,6 +232,9 @@ class FuncVal:
 
 SCALAR = 'scalar'      # marker in `cur`: the name holds a value without identity
 FUNC = 'func'          # marker: documented callback parameter
+# guard specialisation: the exception table allows a pass-through only while the named test holds, so the function is
+# specialised on the test like on a boolean flag (the test text is the pseudo-flag; callers get both variants)
+GUARD_SPLITS = {'core.core_stab': 'v_max <= thr'}
 CALLBACK_OBJECTS = True   # rule 6: a callback parameter is an object (closure): what it returns may reference its cells
 
 
@@ -378,6 +381,9 @@ class Tr:
     # -- constant folding and refinement -----------------------------------------------------------------------
     def const_test(self, t):
         """True / False if the test is decided by the variant's constants, else None"""
+        g = GUARD_SPLITS.get(self.info.qual)
+        if g is not None and g in self.consts and ast.unparse(t) == g:
+            return bool(self.consts[g])
         c = self.const_val(t)
         if c is not NOCONST:
             try:
@@ -1061,6 +1067,8 @@ class Tr:
                         bindings[p] = dv.value
                     elif isinstance(dv, ast.Lambda):
                         bindings[p] = '<lambda-default>'
+            if q in GUARD_SPLITS:
+                split.append(GUARD_SPLITS[q])
             combos = [dict()]
             for p in split:
                 combos = [dict(c, **{p: b}) for c in combos for b in (True, False)]
@@ -1592,6 +1600,8 @@ class Gen:
                     bind[p] = '<lambda-default>'
             elif info.doctypes[p][0].strip() == 'bool' and p in info.tested and len(split) < 4:
                 split.append(p)
+        if qual in GUARD_SPLITS:
+            split.append(GUARD_SPLITS[qual])
         combos = [dict()]
         for p in split:
             combos = [dict(c, **{p: b}) for c in combos for b in (True, False)]
@@ -1930,7 +1940,8 @@ class Gen:
                 and flags.get('inplace') is True and pn == 'Y') or \
             (qual == 'grid.grid_prep_opt' and pn == 'opt') or \
             (qual == 'grid.grid_prep_opts' and pn in ('a', 'b', 'n')) or \
-            (qual == 'core.core_stab' and pn == 'G') or (qual.count('.') >= 2 and pn == 'self')
+            (qual == 'core.core_stab' and flags.get('v_max <= thr') is True and pn == 'G') or \
+            (qual.count('.') >= 2 and pn == 'self')
 
     def report(self):
         """per exported name: variants with the parameters written / escaping beyond the exception table"""
